@@ -105,6 +105,49 @@ def run(chk, facts):
     chk.rule("R-C05-5", "no element is dropped before it is compared: every zip/take/skip in the checker is length-guarded or reviewed (shared census)")
     from .quant import truncation_census
     truncation_census(chk, facts, "R-C05-5")
+    # ---------------- R-C05-6 ----------------
+    # `access` swaps the sides of a constraint so that the access comes first; the constraint that replaces it must put the type of the
+    # field back on the side where the access was - otherwise `x := p.v` checks `typeof(v) >= typeof(x)` (D61)
+    chk.rule("R-C05-6", "the constraint that replaces a field access keeps the side the access was on")
+    try:
+        from .common import fn_paths, idents_in
+        fa = syn.one_fn("field_access", mod="check::constrain::unify::function")
+        ac = syn.one_fn("access", mod="check::constrain::unify::function")
+        bools = [i_["pat"]["name"] for i_ in fa["sig"]["inputs"] if i_.get("pat", {}).get("k") == "pident" and str(i_.get("ty", "")).replace(" ", "") == "bool"]
+        orient = {}
+
+        def sides(block):
+            out_ = set()
+            for e_ in walk(block):
+                if e_.get("k") == "mcall" and e_["m"] == "push" and len(e_["args"]) == 3 and src(strip(e_["recv"])) == "constraints":
+                    out_.add("child" if "other" in idents_in(e_["args"][1]) else ("parent" if "other" in idents_in(e_["args"][2]) else "?"))
+            return out_
+        for n in walk(fa["body"]):
+            if n.get("k") == "if" and n["c"].get("k") != "let" and n.get("else") is not None:
+                c_ = src(strip(n["c"]), -30).replace(" ", "").strip("()")
+                neg = c_.startswith("!")
+                c_ = c_.lstrip("!")
+                if c_ in bools:
+                    orient.setdefault((c_, not neg), set()).update(sides(n["then"]))
+                    orient.setdefault((c_, neg), set()).update(sides(n["else"]))
+        if not orient:
+            orient[("-", None)] = sides(fa["body"])
+        flag = next((b_ for b_ in bools if orient.get((b_, True)) == {"parent"} and orient.get((b_, False)) == {"child"}), None)
+        ok = flag is not None
+        # .. and `access` passes its own swap flag in that position
+        passed = False
+        if ok:
+            pos = [i_["pat"].get("name") for i_ in fa["sig"]["inputs"]].index(flag)
+            calls = [n for n in walk(ac["body"]) if n.get("k") == "call" and src(n["f"]) == "field_access"]
+            swaps = [n for n in walk(ac["body"]) if n.get("k") == "if" and n["c"].get("k") != "let" and n.get("else") is not None and
+                     src(strip(n["then"]), -30).replace(" ", "") in ("(left,right)", "{(left,right)}") and src(strip(n["else"]), -30).replace(" ", "") in ("(right,left)", "{(right,left)}")]
+            passed = len(calls) == 1 and len(swaps) == 1 and src(strip(calls[0]["args"][pos])) == src(strip(swaps[0]["c"]))
+        chk.ob("R-C05-6", "field_access:orientation", ok and passed,
+               f"field_access puts the field's type on the parent side when the access was the parent (`{flag}`) and on the child side otherwise; `access` passes the flag it swaps by" if ok and passed else
+               f"field_access does not restore the side of the access (pushes per flag: { {f'{k[0]}={k[1]}': sorted(v) for k, v in orient.items()} }, flag passed by access: {passed}): "
+               "for an access on the right of a constraint (`x := p.v`) the direction is reversed - a Float field is accepted for an Int variable", facts.loc_of(fa))
+    except AnchorError as e:
+        chk.anchor_fail("R-C05-6", e)
     chk.notes.append("C05: sibling agreement of the arity matchers; census of all constraint sites with operand roles; hand-down of return_type/is_expr.")
 
 
